@@ -124,6 +124,20 @@ class EnumPart:
         self.chunk = chunk
 
 
+class FuzzPart:
+    """coverage-guided second engine (thorough tier only): atheris/libFuzzer drives Hypothesis' fuzz_one_input of an
+    existing HypPart (same strategy, same oracle) with coverage feedback from the instrumented mofun package.
+    runs = libFuzzer executions per worker process."""
+    kind = "fuzz"
+    tiers = ("thorough",)
+
+    def __init__(self, name, hyp_part, runs=4000, workers=16):
+        self.name = name
+        self.hyp_part = hyp_part
+        self.runs = runs
+        self.workers = workers
+
+
 class MachinePart:
     """A Hypothesis RuleBasedStateMachine.  factory(stats, tier) -> machine class.  The machine records its history
     (JSON-able list of steps) in self.history and raises Violation from rules/invariants; replay(history, stats)
@@ -295,6 +309,59 @@ def _run_machine(mod, part, tier, seed, widx, n, t_end, active_known, stats):
 
 # ---------------------------------------------------------------------------------------------------------------------
 
+def _run_fuzz(prop, part, seed):
+    import shutil
+    import subprocess
+    from concurrent.futures import ThreadPoolExecutor
+    out = {"stats": Stats(), "failure": None, "error": None, "note": ""}
+    deps = os.path.join(HERE, ".deps")
+    chk = subprocess.run([sys.executable, "-c", "import sys; sys.path.insert(0, %r); import atheris" % deps],
+                         stdout=subprocess.DEVNULL, stderr=subprocess.DEVNULL)
+    if chk.returncode != 0:
+        subprocess.run([sys.executable, "-m", "pip", "install", "-q", "--no-index", "--find-links", "/opt/veriftools/wheels",
+                        "--target", deps, "atheris"], stdout=subprocess.DEVNULL, stderr=subprocess.DEVNULL)
+        chk = subprocess.run([sys.executable, "-c", "import sys; sys.path.insert(0, %r); import atheris" % deps],
+                             stdout=subprocess.DEVNULL, stderr=subprocess.DEVNULL)
+    if chk.returncode != 0:
+        out["note"] = "(atheris not installable here: part skipped)"
+        return out
+    base = os.path.join(HERE, ".work", "fuzz", "%s-%s" % (prop, part.name))
+    shutil.rmtree(base, ignore_errors=True)
+    os.makedirs(base)
+
+    def one(i):
+        corpus = os.path.join(base, "corpus%d" % i)
+        sj = os.path.join(base, "stats%d.json" % i)
+        p = subprocess.run([sys.executable, os.path.join(HERE, "tools", "fuzz_child.py"), prop, part.hyp_part, str(part.runs),
+                            str(derive_seed(seed, prop, part.name, i)), corpus, sj],
+                           stdout=subprocess.PIPE, stderr=subprocess.PIPE, text=True)
+        return i, p.returncode, p.stdout, p.stderr, sj
+
+    with ThreadPoolExecutor(part.workers) as ex:
+        for i, rc, so, se, sj in ex.map(one, range(part.workers)):
+            m = None
+            for line in so.splitlines():
+                if line.startswith("VIOLATION-CASE "):
+                    m = line.split(" ", 1)[1].strip()
+            if os.path.exists(sj):
+                d = json.load(open(sj))
+                st = Stats()
+                st.evaluations = d["evaluations"]
+                st.nontrivial = set(d["nontrivial"])
+                st.counters = d["counters"]
+                st.samples = d["samples"]
+                st.known = d.get("known", {})
+                out["stats"].merge(st)
+            if m and out["failure"] is None:
+                body = json.load(open(m))
+                out["failure"] = {"case": body["case"], "violation": body["violation"]}
+            elif rc != 0 and not m and out["error"] is None:
+                out["error"] = "fuzz child %d exited %d\n%s" % (i, rc, se[-1500:])
+    out["note"] = "%d processes x %d executions" % (part.workers, part.runs)
+    shutil.rmtree(base, ignore_errors=True)
+    return out
+
+
 def write_replay(prop, part_name, failure):
     os.makedirs(os.path.join(HERE, "replays"), exist_ok=True)
     body = {"property": prop, "part": part_name, "case": failure["case"], "violation": failure["violation"]}
@@ -353,6 +420,8 @@ def run_check(prop, tier, seed):
                 return 1
     ctx = multiprocessing.get_context("fork")
     parts = [p for p in mod.PARTS if getattr(p, "tiers", ("quick", "thorough")).__contains__(tier)]
+    if os.environ.get("VERIF_PARTS"):        # debugging aid: run only the named parts
+        parts = [p for p in parts if p.name in os.environ["VERIF_PARTS"].split(",")]
     for part in parts:
         jobs = []
         if part.kind == "enum":
@@ -374,6 +443,21 @@ def run_check(prop, tier, seed):
             for i in range(w):
                 jobs.append((prop, part.name, tier, seed, i, (n + w - 1) // w, t_end, active, None))
         pstats = Stats()
+        if part.kind == "fuzz":
+            fres = _run_fuzz(prop, part, seed)
+            if fres.get("error"):
+                print("HARNESS-ERROR property=%s part=%s\n%s" % (prop, part.name, fres["error"]))
+                return 2
+            pstats = fres["stats"]
+            if fres.get("failure") and failure is None:
+                failure = (part.hyp_part, fres["failure"])
+            per_part[part.name] = {"evaluations": pstats.evaluations, "distinct_nontrivial": len(pstats.nontrivial),
+                                   "engine": "atheris %s -> hypothesis.fuzz_one_input" % fres.get("note", ""),
+                                   "counters": dict(sorted(pstats.counters.items()))}
+            total.merge(pstats)
+            if failure:
+                break
+            continue
         with ctx.Pool(min(NWORKERS, len(jobs)) or 1) as pool:
             for out in pool.imap_unordered(_worker, jobs):
                 if out["error"]:
